@@ -12,6 +12,7 @@ import Liftbridge.Driver.AuthzDrv
 import Liftbridge.Driver.GroupsDrv
 import Liftbridge.Driver.SealDrv
 import Liftbridge.Driver.GroupSubDrv
+import Liftbridge.Driver.ActivityDrv
 
 namespace Liftbridge.Driver
 open Liftbridge
@@ -20,6 +21,7 @@ structure St where
   log : LogSt := {}
   groups : GroupsSt := {}
   groupSub : GroupSubSt := {}
+  activity : ActivitySt := {}
 
 def showRes {α} (f : α → String) : Res α → String
   | .ok a => "ok " ++ f a
@@ -56,6 +58,7 @@ def step (st : St) (line : String) : St × String :=
   | "c19" :: rest => (st, c19 rest)
   | "c15" :: rest => (st, c15Step rest)
   | "c17" :: rest => (st, c17 rest)
+  | "c18" :: rest => let (a, out) := activityStep st.activity rest; ({ st with activity := a }, out)
   | "c13" :: rest => let (g, out) := groupSubStep st.groupSub rest; ({ st with groupSub := g }, out)
   | "c12" :: rest => let (g, out) := groupsStep st.groups rest; ({ st with groups := g }, out)
   | "log" :: rest => let (l, out) := logStep st.log rest; ({ st with log := l }, out)
